@@ -1,3 +1,4 @@
+import numpy as np
 from scipy import optimize as sopt
 
 from ..config import LocalOptimizationConfig
@@ -50,6 +51,7 @@ class LocalDeme(AbstractDeme):
         return self._n_evals
 
     def _history_callback(self, intermediate_result) -> None:
-        ind = Individual(intermediate_result.x, problem=self._problem)
+        # scipy reuses the array behind intermediate_result.x, so keep a copy of the iterate
+        ind = Individual(np.copy(intermediate_result.x), problem=self._problem)
         ind.fitness = intermediate_result.fun
         self._run_history.append(ind)
